@@ -255,6 +255,14 @@ def norm_bits(t, ctx: BitCtx):
             n = max(len(x.bits), len(y.bits))
             f = {"&": and_, "|": or_, "^": xor_}[o]
             return BV([f(x.get(i), y.get(i)) for i in range(n)], f(x.ext, y.ext))
+        if o in ("+", "-"):
+            # arithmetic that cancels to a single term ((7 + f) - 7): the bits of that term
+            from .linear import linearize as _lz
+            l_ = _lz(t)
+            if l_.c == 0 and len(l_.co) == 1:
+                (at_, cf_), = l_.co.items()
+                if cf_ == 1 and at_ != t:
+                    return norm_bits(at_, ctx)
         if o == "+":
             x, y = norm_bits(a, ctx), norm_bits(b, ctx)
             if x is not None and y is not None:
@@ -287,6 +295,12 @@ def norm_bits(t, ctx: BitCtx):
             c = norm_bits(truthy_bit(t.a[0]), ctx)
             if c is not None and len(c.bits) == 1 and c.ext == 0:
                 return c
+        # ... or between a single-bit constant 2**k and 0 (`0x10 if flag else 0`): the selecting bit at position k
+        if t.a[1].k == "const" and t.a[2].k == "const" and isinstance(t.a[1].a[0], int) and not isinstance(t.a[1].a[0], bool) \
+                and t.a[1].a[0] > 1 and t.a[1].a[0] & (t.a[1].a[0] - 1) == 0 and t.a[2].a[0] in (0, False) and t.a[2].a[0] is not None:
+            c = norm_bits(truthy_bit(t.a[0]), ctx)
+            if c is not None and len(c.bits) == 1 and c.ext == 0:
+                return BV([0] * (t.a[1].a[0].bit_length() - 1) + [c.bits[0]], 0)
         if t.a[1].k == "const" and t.a[2].k == "const" and t.a[1].a[0] in (0, False) and t.a[2].a[0] in (1, True):
             c = norm_bits(truthy_bit(t.a[0]), ctx)
             if c is not None and len(c.bits) == 1 and c.ext == 0 and c.bits[0] not in (0, 1) and c.bits[0] != TOP:
